@@ -112,6 +112,15 @@ def gen_history(rng, budget, hw):
                         "sequential": True})
         elif r < 0.84 and free_slots >= 1:
             ops.append({"op": "epr_seq", "role": rng.choice(["create", "recv"]), "n": rng.randrange(1, 5)})
+            tail = rng.random()
+            if hw == "generic" and live and tail < 0.6:
+                # ... and in the SAME subroutine a qubit is given back and a new one made: while the request's handles (which all
+                # carry one and the same id) are in the list of active qubits, the new qubit still gets an id the controller has free
+                q = rng.choice(live)
+                live.remove(q)
+                ops.append({"op": "free", "q": q} if tail < 0.3 else {"op": "measure", "q": q, "inplace": False, "flag": "bool"})
+                nq += 1
+                ops.append({"op": "new", "q": f"q{nq}"})
             ops.append({"op": "flush"})
             return ops       # judged up to this flush (known finding afterwards)
         elif r < 0.88 and free_slots >= 1:
@@ -138,6 +147,12 @@ def cases(ctx):
         yield {"kind": "history", "budget": 3, "hardware": "nv", "transpile": True,
                "ops": [{"op": "new", "q": "a"}, {"op": "flush"}, {"op": "new", "q": "b"}, {"op": "measure", "q": "b", "inplace": False},
                        {"op": "flush"}]}
+        # a qubit at id 0, a sequential request next to it (its handles share id 1), the qubit given back, a new one: id 0 again
+        for role in ("create", "recv"):
+            for npairs in (2, 3):
+                yield {"kind": "history", "budget": 2, "hardware": "generic", "transpile": False,
+                       "ops": [{"op": "new", "q": "a"}, {"op": "epr_seq", "role": role, "n": npairs},
+                               {"op": "measure", "q": "a", "inplace": False, "flag": "bool"}, {"op": "new", "q": "b"}, {"op": "flush"}]}
         # a fidelity-constrained request whose pairs get NON-consecutive ids (an id in between is held by another handle), retried
         for role in ("create", "recv"):
             for retries in (1, 2):
